@@ -350,10 +350,14 @@ theorem mem_sortDesc {y : List Key × Tree} : (l : List (List Key × Tree)) → 
     · exact List.mem_cons_of_mem _ (mem_sortDesc xs h)
 
 /-- What `rebind` does on a receiver: nothing (refused / rejected), or the write loop over the pairs
-(in descending path order when the receiver is a List). -/
+(in descending path order when the receiver is a List; on the attribute container when it is an
+Object). -/
 theorem rebindNode_cases (G : Table) (env : Env) (t : Tree) (pairs : List (List Key × Tree)) (r : Bool) :
     (rebindNode G env t pairs r).1 = t ∨ rebindNode G env t pairs r = treeSetAll G env t pairs ∨
-      rebindNode G env t pairs r = treeSetAll G env t (sortDesc pairs) := by
+      rebindNode G env t pairs r = treeSetAll G env t (sortDesc pairs) ∨
+      ((∃ f c attrs, t = .obj f c attrs) ∧
+        rebindNode G env t pairs r =
+          (fromLoopRoot t (treeSetAll G env (asLoopRoot t) pairs).1, (treeSetAll G env (asLoopRoot t) pairs).2)) := by
   unfold rebindNode
   cases hf : t.flags? with
   | none => exact Or.inl rfl
@@ -366,27 +370,43 @@ theorem rebindNode_cases (G : Table) (env : Env) (t : Tree) (pairs : List (List 
       · split
         · exact Or.inl rfl
         · cases t with
-          | list f' xs => exact Or.inr (Or.inr rfl)
+          | list f' xs => exact Or.inr (Or.inr (Or.inl rfl))
           | leaf a => exact Or.inr (Or.inl rfl)
           | dict f' kvs => exact Or.inr (Or.inl rfl)
-          | obj f' c attrs => exact Or.inr (Or.inl rfl)
+          | obj f' c attrs => exact Or.inr (Or.inr (Or.inr ⟨⟨f', c, attrs, rfl⟩, rfl⟩))
 
-/-- On a Dict / Object receiver that is itself not treated as sealed, with no target sealed when the
-call starts, `rebind` is the write loop over the pairs in the given order. -/
-theorem rebindNode_loop {G : Table} (hacc : RebindIgnoresAcc G) (env : Env) (t : Tree) (f : Flags)
-    (pairs : List (List Key × Tree)) (r : Bool)
-    (hf : t.flags? = some f) (hk : loopEP t = .d_rebind) (hu : treatsAsSealed env f = false)
-    (hne : pairs.isEmpty = false) (hpc : anySealedTarget env t pairs = false) :
-    rebindNode G env t pairs r = treeSetAll G env t pairs := by
+/-- On a Dict receiver that is itself not treated as sealed, with no target sealed when the call
+starts, `rebind` is the write loop over the pairs in the given order. -/
+theorem rebindNode_loop {G : Table} (hacc : RebindIgnoresAcc G) (env : Env) (f : Flags)
+    (kvs : List (String × Tree)) (pairs : List (List Key × Tree)) (r : Bool)
+    (hu : treatsAsSealed env f = false)
+    (hne : pairs.isEmpty = false) (hpc : anySealedTarget env (.dict f kvs) pairs = false) :
+    rebindNode G env (.dict f kvs) pairs r = treeSetAll G env (.dict f kvs) pairs := by
   obtain ⟨h1, h2, h3⟩ := hacc
-  have hg : guard G env f (rebindEP t) = none := by
-    cases t <;> simp_all [guard, rebindEP, flags?]
+  have hg : guard G env f (rebindEP (.dict f kvs)) = none := by
+    simp_all [guard, rebindEP]
   unfold rebindNode
-  simp only [hf, hne, Bool.false_and, Bool.false_eq_true, if_false, hg, hpc, Bool.and_false]
-  cases t with
-  | list f' xs => simp [loopEP] at hk
-  | leaf a => rfl
-  | dict f' kvs => rfl
-  | obj f' c attrs => rfl
+  simp only [flags?, hne, Bool.false_and, Bool.false_eq_true, if_false, hg, asLoopRoot_dict, hpc, Bool.and_false]
+
+/-- The node at `p` after a node transformer was applied there. -/
+theorem resolve_mapAt (g : Tree → Tree) : (p : List Key) → (root r : Tree) → resolve root p = some r →
+    resolve (mapAt g root p) p = some (g r)
+  | [], root, r, h => by simp only [resolve, Option.some.injEq] at h; subst h; rfl
+  | k :: rest, root, r, h => by
+    simp only [resolve] at h
+    cases hc : root.child k with
+    | none => simp [hc] at h
+    | some c =>
+      simp only [hc] at h
+      simp only [mapAt, hc, resolve, setChild_child_eq hc]
+      exact resolve_mapAt g rest c r h
+
+theorem resolve_fromLoopRoot (orig t : Tree) (k : Key) (q : List Key) :
+    resolve (fromLoopRoot orig t) (k :: q) = resolve t (k :: q) := by
+  cases orig <;> cases t <;> first | rfl | (cases k <;> simp [resolve, fromLoopRoot, child])
+
+theorem resolve_asLoopRoot (t : Tree) (k : Key) (q : List Key) :
+    resolve (asLoopRoot t) (k :: q) = resolve t (k :: q) := by
+  cases t <;> first | rfl | (cases k <;> simp [resolve, asLoopRoot, child])
 
 end Pg.C08
